@@ -150,12 +150,18 @@ static int op_toom8h_mul(int argc, tok_t *a, out_t *o) {
   NEED(VEC2(a)); long an = a[0].n, bn = a[1].n;
   NEED(an >= bn && bn >= MPN_TOOM8H_MUL_MINSIZE && an * 4 <= bn * 13); return do_u(mpn_toom8h_mul, argc, a, o);
 }
-/* mpn_mul_fft_main: ASSERT(n1 > 0); ASSERT(n2 > 0) (mul_fft_main.c:51-52) */
+/* mpn_mul_fft_main: ASSERT(n1 > 0); ASSERT(n2 > 0); ASSERT(j1 + j2 - 1 > 2*n) at the initial depth 6, w 1
+   (mul_fft_main.c:40-53): operands of at least ~57 limbs in total */
+static int fft_main_domain(long n1, long n2) {
+  long depth = 6, w = 1, n = 1L << depth, bits = (n * w - (depth + 1)) / 2;
+  long j1 = (n1 * GMP_LIMB_BITS - 1) / bits + 1, j2 = (n2 * GMP_LIMB_BITS - 1) / bits + 1;
+  return n1 >= 1 && n2 >= 1 && j1 + j2 - 1 > 2 * n;
+}
 static int op_mul_fft_main(int argc, tok_t *a, out_t *o) {
-  NEED(VEC2(a) && a[0].n >= 1 && a[1].n >= 1); return do_u(mpn_mul_fft_main, argc, a, o);
+  NEED(VEC2(a) && fft_main_domain(a[0].n, a[1].n)); return do_u(mpn_mul_fft_main, argc, a, o);
 }
 static int op_mul_fft_main_same(int argc, tok_t *a, out_t *o) {
-  NEED(VEC1(a) && a[0].n >= 1);
+  NEED(VEC1(a) && fft_main_domain(a[0].n, a[0].n));
   long n = 2 * a[0].n; mp_limb_t *rp = dst_new(n);
   mpn_mul_fft_main(rp, a[0].d, a[0].n, a[0].d, a[0].n);
   out_vec(o, rp, n); FIN(rp, n); return 0;
